@@ -88,7 +88,7 @@ AtomsCG == {Brk("[#A]", "A", 0, 0, <<>>), Brk("[#B]", "B", 0, 0, <<FKW("w", "0.5
 AtomsW == {Bare("C", "C", FALSE), Bare("N", "N", FALSE), Bare("c", "C", TRUE), Bare("Cl", "Cl", FALSE),
            Brk("[O-]", "O", -1, 0, <<>>)}
 AtomsCGW == {Brk("[#A]", "A", 0, 0, <<>>), Brk("[#B]", "B", 0, 0, <<>>)}
-SymsW  == {".", "=", "#"}
+SymsW  == {".", "-", "=", "#"}
 DescQ  == {Dsc("$", ""), Dsc(">", "A"), Dsc("!", "")}
 DescT  == {Dsc("$", ""), Dsc("$", "A"), Dsc(">", ""), Dsc("<", "1A"), Dsc("!", "")}
 SymsQ  == {"="}
